@@ -338,6 +338,10 @@ func Generate(s *ast.Schema, t *core.Tape, o GenOpts) (op Op, discarded int, ok 
 			discarded++
 			continue
 		}
+		if MergeConflict(doc) != "" {
+			discarded++
+			continue
+		}
 		return Op{Name: "gen", Query: q, Vars: vmap}, discarded, true
 	}
 	return Op{}, discarded, false
